@@ -411,6 +411,9 @@ def gen_op(rng, U, malformed):
         x = rng.choice(knots[1:-1])
         return (k, [x] * rng.randint(1, U.count(x)))
     if k in ("iadd_num", "isub_num", "shift"):
+        if rng.random() < 0.12:
+            # far translations (parameters like time stamps): every query must keep agreeing with the element list out there
+            return (k, F(rng.choice([-1, 1]) * rng.choice([10**10, 4 * 10**9, 10**12, 3 * 10**15]) + rng.randint(0, 9)))
         return (k, rand_rat(rng))
     if k in ("scale", "imul", "idiv"):
         if malformed:
